@@ -27,9 +27,10 @@ type fragInfo struct {
 }
 
 type poolVar struct {
-	name string
-	typ  *m.Type
-	def  *m.Value
+	name        string
+	typ         *m.Type
+	def         *m.Value
+	defOptional bool // the default may be dropped or changed without invalidating a use
 }
 
 // scope tracks response names of one merged selection level.
@@ -134,7 +135,15 @@ func (g *G) Doc() *m.Doc {
 		sort.Strings(names)
 		for _, n := range names {
 			pv := g.pool[n]
-			d.Vars = append(d.Vars, m.VarDef{Name: pv.name, Type: pv.typ, Default: pv.def})
+			def := pv.def
+			if pv.defOptional && nops > 1 && g.r.Chance(1, 2) {
+				// operations sharing a fragment declare its variables independently: one may give a default the other lacks
+				def = nil
+				if g.r.Bool() {
+					def = tsys.GenValue(g.r, g.Lookup, pv.typ, 2, true)
+				}
+			}
+			d.Vars = append(d.Vars, m.VarDef{Name: pv.name, Type: pv.typ, Default: def})
 		}
 		names = names[:0]
 		for n := range g.curLocal {
@@ -595,6 +604,7 @@ func (g *G) variable(t *m.Type, locDefault bool) *m.Value {
 	case k == 3:
 		if !pv.typ.NonNull {
 			pv.def = tsys.GenValue(r, g.Lookup, pv.typ, 2, true)
+			pv.defOptional = true // no use depends on it
 		}
 	}
 	if g.inFrag || g.curLocal == nil {
@@ -828,4 +838,44 @@ func sortedVarNames(mp map[string]*poolVar) []string {
 	}
 	sort.Strings(names)
 	return names
+}
+
+// TwinOperation adds a copy of one operation (same selections, so it shares every fragment with the original) whose nullable
+// variables without a default get one; the copy goes after or before the original. Both stay valid: a default on a nullable
+// variable never invalidates a use. Returns false when no operation declares such a variable.
+func TwinOperation(r *core.Rand, g *G, doc *m.Doc) bool {
+	for _, oi := range r.Perm(len(doc.Defs)) {
+		op := doc.Defs[oi]
+		if op.IsFragment || op.Name == "" {
+			continue
+		}
+		cands := 0
+		for _, v := range op.Vars {
+			if !v.Type.NonNull && v.Default == nil {
+				cands++
+			}
+		}
+		if cands == 0 {
+			continue
+		}
+		one := CloneDoc(&m.Doc{Defs: []*m.Def{op}}).Defs[0]
+		one.Name = op.Name + "Twin"
+		changed := false
+		for i := range one.Vars {
+			v := &one.Vars[i]
+			if !v.Type.NonNull && v.Default == nil && (r.Chance(2, 3) || !changed) {
+				nn := *v.Type
+				nn.NonNull = true
+				v.Default = tsys.GenValue(r, g.Lookup, &nn, 2, false)
+				changed = true
+			}
+		}
+		at := oi + 1
+		if r.Chance(1, 3) {
+			at = oi
+		}
+		doc.Defs = append(doc.Defs[:at], append([]*m.Def{one}, doc.Defs[at:]...)...)
+		return true
+	}
+	return false
 }
